@@ -35,23 +35,28 @@ namespace XALAN_CPP_NAMESPACE {
 
 
 
-XercesDOMParsedSourceHelper::XercesDOMParsedSourceHelper(MemoryManager&     theManager) :
+XercesDOMParsedSourceHelper::XercesDOMParsedSourceHelper(
+            MemoryManager&              theManager,
+            const XercesParserLiaison*  theSourceLiaison) :
     m_parserLiaison(theManager),
-    m_domSupport(m_parserLiaison)
+    m_domSupport(m_parserLiaison, theSourceLiaison)
 {
 }
 
 
 
 XercesDOMParsedSourceHelper*
-XercesDOMParsedSourceHelper::create(MemoryManager&  theManager)
+XercesDOMParsedSourceHelper::create(
+            MemoryManager&              theManager,
+            const XercesParserLiaison*  theSourceLiaison)
 {
     XercesDOMParsedSourceHelper*    theInstance = 0;
 
     return XalanConstruct(
         theManager,
         theInstance,
-        theManager);
+        theManager,
+        theSourceLiaison);
 }
 
 
@@ -179,7 +184,9 @@ XercesDOMParsedSource::getDocument() const
 XalanParsedSourceHelper*
 XercesDOMParsedSource::createHelper(MemoryManager& theManager) const
 {
-    return XercesDOMParsedSourceHelper::create(theManager);
+    // The helper's DOM support object needs to find the source document,
+    // for unparsed-entity-uri().
+    return XercesDOMParsedSourceHelper::create(theManager, &m_parserLiaison);
 }
 
 
